@@ -283,10 +283,23 @@ def execute(sc):
                 hit = [s for s in (m.snapshots or []) if eq(s, obs)]
                 bump("probe_cancel_injected")
                 bump("probe_cancel_state_is_prefix" if hit else "probe_cancel_state_other")
-                m.g = copy.deepcopy({k: jsonable(x) for k, x in obs.items()})
                 log.add("inv-cancelled", vm=v, fn=op[2], at=_counter["n"])
                 abstract.append([v, "inv", op[2], "cancelled"])
-                continue
+                # is the VM still usable?  (tallied only)
+                _counter["n"] = 0
+                _counter["limit"] = limit
+                try:
+                    with core.Quiet():
+                        vms[v].Invoke(op[2], **copy.deepcopy(op[3]))
+                    bump("probe_cancel_vm_usable_afterwards")
+                except StepBudgetExceeded:
+                    bump("probe_cancel_next_invoke_does_not_return")
+                except Exception as e:
+                    bump("probe_cancel_next_invoke_raises_" + type(e).__name__)
+                finally:
+                    _counter["limit"] = None
+                # C15 says nothing about cancelled invocations: nothing after this point is judged
+                return done("ok", None, "cut: cancellation probe fired", cut=True)
             if mfault is not None:
                 bump("fault_" + mfault)
                 if m.stores - stores0 > 0:
